@@ -290,6 +290,15 @@ Fixpoint raw_wf (r : raw_expr) : bool :=
   | RSeq s => raw_seq_shape s && ok_seq_with raw_wf s
   end.
 
+(* the ASTs of the C02 quantifier proper: operators, calls, literals and variables only *)
+Fixpoint no_seq (r : raw_expr) : bool :=
+  match r with
+  | RLit _ | RVar _ => true
+  | RBin _ l r1 => no_seq l && no_seq r1
+  | RPre _ e | RAsg _ _ e | RCall _ e => no_seq e
+  | RSeq _ => false
+  end.
+
 (* forgets every RootNode that wraps exactly one child *)
 Fixpoint strip_roots (n : node) : node :=
   match n with
@@ -302,13 +311,15 @@ Fixpoint strip_roots (n : node) : node :=
 (* ---------------------------------------------------------------------------------------------- *)
 
 (* evaluates the trees left to right, threading context and log; stops at the first failure *)
-Fixpoint eval_in_order (O : std_oracle) (l : list node) (c : ctx) (lg : log) : outcome (list value) * ctx * log :=
+Section InOrder.
+Variable O : std_oracle.
+Fixpoint eval_in_order (l : list node) (c : ctx) (lg : log) : outcome (list value) * ctx * log :=
   match l with
   | [] => (Ok [], c, lg)
   | x :: l' =>
       match eval_mut O x c lg with
       | (Ok v, c1, lg1) =>
-          match eval_in_order O l' c1 lg1 with
+          match eval_in_order l' c1 lg1 with
           | (Ok vs, c2, lg2) => (Ok (v :: vs), c2, lg2)
           | r => r
           end
@@ -316,3 +327,4 @@ Fixpoint eval_in_order (O : std_oracle) (l : list node) (c : ctx) (lg : log) : o
       | (Panic s, c1, lg1) => (Panic s, c1, lg1)
       end
   end.
+End InOrder.
